@@ -676,8 +676,14 @@ pub fn build(case: &Arc<Case>, ctx: &Arc<ExecCtx>) -> Bench {
     }
     // Whatever was not consumed (descendants of dead/orphan nodes) stays alive
     // as orphan mailboxes.
-    for mb in mailboxes.into_iter().flatten() {
-        orphans.push(mb);
+    for (i, mb) in mailboxes.into_iter().enumerate() {
+        if let Some(mb) = mb {
+            if case.nodes[i].dead {
+                drop(mb);
+            } else {
+                orphans.push(mb);
+            }
+        }
     }
 
     let clock = ScriptClock { ctx: ctx.clone(), answers: case.cfg.clock.clone(), calls: 0 };
